@@ -115,7 +115,7 @@ func (d *Driver) isolate(group []uint64) {
 func (d *Driver) heal() { d.blocked = map[[2]uint64]bool{} }
 
 func (d *Driver) unfreeze() {
-	d.frozenReady, d.frozenAppend, d.frozenApply = map[uint64]bool{}, map[uint64]bool{}, map[uint64]bool{}
+	d.frozenReady, d.frozenAppend, d.frozenApply, d.frozenLocal = map[uint64]bool{}, map[uint64]bool{}, map[uint64]bool{}, map[uint64]bool{}
 }
 
 func (d *Driver) pipeline(id uint64) {
@@ -141,7 +141,7 @@ func (d *Driver) snapCompact(n *AppNode) {
 // deliverSel delivers the oldest in-flight message matching the selector, ignoring holds.
 func (d *Driver) deliverSel(sel MsgSel) bool { return d.c.Do(Step{Act: "Deliver", Sel: &sel}) }
 
-func (d *Driver) releaseHolds() { d.holdTypes = map[pb.MessageType]bool{} }
+func (d *Driver) releaseHolds() { d.holdTypes = map[pb.MessageType]bool{}; d.holdIf = nil }
 
 // runNode lets one node work through its Ready pipeline and storage threads.
 func (d *Driver) runNode(id uint64) {
@@ -151,7 +151,10 @@ func (d *Driver) runNode(id uint64) {
 			return
 		}
 		did := d.c.Do(Step{Act: "ProcessReady", Node: id})
-		for d.c.up(id) != nil && len(n.AppendQ) > 0 && !d.frozenAppend[id] && d.c.Do(Step{Act: "AppendThread", Node: id}) {
+		for d.c.up(id) != nil && len(n.LocalQ) > 0 && !d.frozenLocal[id] && d.c.Do(Step{Act: "LocalResp", Node: id}) {
+			did = true
+		}
+		for d.c.up(id) != nil && len(n.AppendQ) > 0 && !d.frozenAppend[id] && d.c.Do(Step{Act: "AppendThread", Node: id, Keep: d.frozenLocal[id]}) {
 			did = true
 		}
 		for d.c.up(id) != nil && len(n.ApplyQ) > 0 && !d.frozenApply[id] && d.c.Do(Step{Act: "ApplyThread", Node: id}) {
@@ -180,6 +183,7 @@ var scenarios = []scenario{
 	{"crash-points", scCrashPoints},
 	{"flow", scFlow},
 	{"big-joint", scBigJoint},
+	{"ack-race", scAckRace},
 }
 
 // an old leader is cut off (alone or with a minority) and keeps acting while
@@ -712,6 +716,10 @@ func scDiskStall(d *Driver) {
 		return
 	}
 	f := d.pick(oth)
+	if len(oth) >= 2 && pct(d.r, 45) {
+		scStalledLeaderDeposed(d, l, f)
+		return
+	}
 	victim := f
 	if pct(d.r, 25) {
 		victim = l.ID
@@ -761,6 +769,72 @@ func scDiskStall(d *Driver) {
 		d.heal()
 	}
 	d.with(p, 80)
+}
+
+// the leader's storage writes are stalled while it accepts several proposals; only a prefix of them
+// reaches one follower, which is then elected and overwrites the rest while the old leader's write
+// of the original entries is still queued; that write is then carried out and the node crashes
+func scStalledLeaderDeposed(d *Driver, l *AppNode, nl uint64) {
+	d.settle(20)
+	d.frozenAppend[l.ID] = true
+	k := 2 + d.r.Intn(3)
+	for i := 0; i < k; i++ {
+		if d.c.Do(Step{Act: "Propose", Node: l.ID, Pid: d.nextPid, Psz: []int{0, 5, 12}[d.r.Intn(3)]}) {
+			d.nextPid++
+		}
+		if pct(d.r, 25) {
+			d.pipeline(l.ID)
+		}
+	}
+	d.pipeline(l.ID)
+	// the first append reaches the future leader, everything else the old leader sent is lost
+	keep := 1 + d.r.Intn(2)
+	for i := 0; i < keep; i++ {
+		d.deliverSel(MsgSel{Type: "App", From: l.ID, To: nl})
+	}
+	d.isolate([]uint64{l.ID})
+	for _, nm := range append([]*NetMsg(nil), d.c.Net...) {
+		if nm.M.GetFrom() == l.ID {
+			d.c.Do(Step{Act: "Drop", Mid: nm.Mid})
+		}
+	}
+	d.runNode(nl)
+	for i := 0; i < 12 && !safeIsLeader(d.c.Nodes[nl].RN); i++ {
+		for t := 0; t < 12 && i%3 == 0; t++ {
+			for _, o := range d.others(l.ID) {
+				d.c.Do(Step{Act: "Tick", Node: o})
+			}
+		}
+		if d.c.up(nl) == nil {
+			break
+		}
+		d.c.Do(Step{Act: "Campaign", Node: nl})
+		d.with(calm, 25)
+	}
+	if n := d.c.up(nl); n != nil && safeIsLeader(n.RN) && pct(d.r, 50) {
+		d.propose(n, 1, false)
+	}
+	d.heal()
+	d.with(calm, 15+d.r.Intn(25)) // the old leader (writes still stalled) is overwritten
+	d.frozenAppend[l.ID] = false
+	if n := d.c.up(l.ID); n != nil && len(n.AppendQ) > 0 {
+		nw := 1 + d.r.Intn(2)
+		for i := 0; i < nw && len(n.AppendQ) > 0; i++ {
+			d.c.Do(Step{Act: "AppendThread", Node: l.ID})
+		}
+		if pct(d.r, 80) {
+			d.c.Do(Step{Act: "Crash", Node: l.ID, Ok: false})
+			d.with(calm, 10)
+			lo, hi := d.c.RestartRange(d.c.Nodes[l.ID])
+			a := lo
+			if hi > lo {
+				a += uint64(d.r.Intn(int(hi-lo) + 1))
+			}
+			d.c.Do(Step{Act: "Restart", Node: l.ID, Applied: a})
+		}
+	}
+	d.unfreeze()
+	d.settle(100)
 }
 
 // competing candidates, duplicated and delayed vote traffic, voters crashing
@@ -1259,5 +1333,283 @@ func scBigJoint(d *Driver) {
 			}
 		}
 	}
+	d.settle(120)
+}
+
+func (d *Driver) dropWhere(f func(m *pb.Message) bool) {
+	for _, nm := range append([]*NetMsg(nil), d.c.Net...) {
+		if f(nm.M) {
+			d.c.Do(Step{Act: "Drop", Mid: nm.Mid})
+		}
+	}
+}
+
+// leaderIn returns a running leader among ids whose term exceeds minTerm.
+func (d *Driver) leaderIn(ids []uint64, minTerm uint64) *AppNode {
+	for _, id := range ids {
+		if n := d.c.up(id); n != nil && safeIsLeader(n.RN) {
+			if st, perr := safeState(n.RN); perr == "" && st.Term > minTerm {
+				return n
+			}
+		}
+	}
+	return nil
+}
+
+// electIn lets the nodes of ids (already connected among themselves) elect a leader of a term above minTerm.
+func (d *Driver) electIn(ids []uint64, minTerm uint64, prefer uint64) *AppNode {
+	p := calm
+	p.Tick = 0
+	for k := 0; k < 14; k++ {
+		if n := d.leaderIn(ids, minTerm); n != nil {
+			return n
+		}
+		if k%4 == 0 {
+			for t := 0; t < 12; t++ { // leases expire
+				for _, id := range ids {
+					if id != prefer {
+						d.c.Do(Step{Act: "Tick", Node: id})
+					}
+				}
+			}
+		}
+		d.c.Do(Step{Act: "Campaign", Node: prefer})
+		for st := 0; st < 30; st++ { // stop at the very step that makes a leader
+			if n := d.leaderIn(ids, minTerm); n != nil {
+				return n
+			}
+			d.with(p, 1)
+		}
+	}
+	return d.leaderIn(ids, minTerm)
+}
+
+func termOf(n *AppNode) uint64 {
+	if n == nil || n.RN == nil {
+		return 0
+	}
+	st, perr := safeState(n.RN)
+	if perr != "" {
+		return 0
+	}
+	return st.Term
+}
+
+// Asynchronous storage writes on a follower V whose acknowledgements from the append thread travel
+// slowly: V installs a snapshot plus entries of leader A (term t) in one write; a leader B of a later
+// term overwrites those entries (second write, completed); A, re-elected in a still later term,
+// sends its old entries again (third write, still queued) - and only now the acknowledgement of the
+// first write (same index, same term t, but a different incarnation of those entries) arrives.
+func scAckRace(d *Driver) {
+	a := d.elect(300)
+	if a == nil || len(d.c.IDs) < 5 {
+		return
+	}
+	oth := d.others(a.ID)
+	d.r.Shuffle(len(oth), func(i, j int) { oth[i], oth[j] = oth[j], oth[i] })
+	v, rest := oth[0], oth[1:]
+	if !d.c.Nodes[v].Cfg.Async {
+		d.settle(100)
+		return
+	}
+	// V falls behind and will need a snapshot
+	d.isolate([]uint64{v})
+	d.dropWhere(func(m *pb.Message) bool { return m.GetFrom() == v || m.GetTo() == v })
+	d.propose(a, 2+d.r.Intn(2), false)
+	caughtUp := func() bool {
+		st, perr := safeState(a.RN)
+		return perr == "" && st.Commit == st.LastIndex && st.Applied == st.Commit
+	}
+	if !d.waitFor(60, caughtUp) || d.c.up(a.ID) == nil || !safeIsLeader(a.RN) {
+		d.heal()
+		d.settle(100)
+		return
+	}
+	if _, hi := d.c.snapBounds(a); hi > 1 {
+		if d.c.Do(Step{Act: "Snapshot", Node: a.ID, K: hi}) {
+			d.c.Do(Step{Act: "Compact", Node: a.ID, K: hi})
+		}
+	}
+	tA := termOf(d.c.up(a.ID))
+	// A is cut off from everyone but V and accepts proposals nobody else sees
+	d.heal()
+	d.isolate([]uint64{a.ID, v})
+	d.holdTypes[pb.MsgSnap], d.holdTypes[pb.MsgApp] = true, true
+	d.propose(a, 1+d.r.Intn(2), false)
+	p := calm
+	p.Tick = 0
+	snapIdx := uint64(0)
+	if sn, err := a.St.Snapshot(); err == nil {
+		snapIdx = sn.GetMetadata().GetIndex()
+	}
+	inNet := func(t pb.MessageType, withEnts bool) bool {
+		for _, nm := range d.c.Net {
+			if nm.M.GetType() == t && nm.M.GetFrom() == a.ID && nm.M.GetTo() == v && (!withEnts || (len(nm.M.GetEntries()) > 0 && nm.M.GetIndex() >= snapIdx)) {
+				return true
+			}
+		}
+		return false
+	}
+	for k := 0; k < 12 && !inNet(pb.MsgSnap, false); k++ {
+		d.c.Do(Step{Act: "Tick", Node: a.ID})
+		d.with(p, 15)
+	}
+	if inNet(pb.MsgSnap, false) {
+		// the application reports the snapshot as sent; the next heartbeat response makes A append optimistically
+		d.c.Do(Step{Act: "ReportSnapshot", Node: a.ID, To: v, Ok: true})
+		for k := 0; k < 12 && !inNet(pb.MsgApp, true); k++ {
+			d.c.Do(Step{Act: "Tick", Node: a.ID})
+			d.with(p, 15)
+		}
+	}
+	// snapshot and the following append reach V before V looks at its Ready
+	d.frozenReady[v] = true
+	gotSnap := d.deliverSel(MsgSel{Type: "Snap", From: a.ID, To: v})
+	gotApp := false
+	for k := 0; k < 6; k++ {
+		if !inNet(pb.MsgApp, false) {
+			break
+		}
+		if d.deliverSel(MsgSel{Type: "App", From: a.ID, To: v}) {
+			gotApp = true
+		}
+	}
+	dbg("ack-race: snap", gotSnap, "app", gotApp)
+	if os.Getenv("VERIF_DEBUG_SC") != "" {
+		jn := jNode(d.c.Nodes[v].RN)
+		dbg("   V after deliveries: term", jn.Term, "role", jn.Role, "usnap", jn.USnap.Has, jn.USnap.Index, "uents", fmt.Sprint(jn.UEnts), "commit", jn.Commit, "msgs", len(jn.Msgs), len(jn.After))
+		ja := jNode(a.RN)
+		dbg("   A: term", ja.Term, "role", ja.Role, "first", ja.First, "last", ja.Last, "prs", fmt.Sprint(ja.Prs))
+	}
+	d.releaseHolds()
+	d.frozenReady[v] = false
+	d.frozenLocal[v] = true
+	d.runNode(v) // first write done, its acknowledgement is on the way
+	dbg("ack-race: pending acks", len(d.c.Nodes[v].LocalQ))
+	showAcks := func(tag string) {
+		for _, m := range d.c.Nodes[v].LocalQ {
+			dbg("   ", tag, "ack: term", m.GetTerm(), "index", m.GetIndex(), "logterm", m.GetLogTerm(), "snap", m.GetSnapshot() != nil)
+		}
+	}
+	showAcks("after first write")
+	// A is now alone; a new leader among the rest, whose appends reach only V
+	d.heal()
+	d.isolate([]uint64{a.ID})
+	for _, nm := range append([]*NetMsg(nil), d.c.Net...) {
+		if nm.M.GetFrom() == a.ID || nm.M.GetTo() == a.ID {
+			d.c.Do(Step{Act: "Drop", Mid: nm.Mid})
+		}
+	}
+	d.blocked[[2]uint64{v, rest[0]}], d.blocked[[2]uint64{v, rest[1]}], d.blocked[[2]uint64{v, rest[2]}] = true, true, true
+	b := d.electIn(rest, tA, rest[0])
+	if b == nil {
+		d.unfreeze()
+		d.heal()
+		d.settle(120)
+		return
+	}
+	tB := termOf(b)
+	d.heal()
+	d.isolate([]uint64{b.ID, v})
+	d.dropWhere(func(m *pb.Message) bool { return m.GetFrom() == b.ID && m.GetTo() != v })
+	d.propose(b, 1+d.r.Intn(2), false)
+	d.with(p, 60) // second write (overwriting the first) is carried out; acknowledgements still queue up
+	dbg("ack-race: B leads term", tB, "pending acks at V", len(d.c.Nodes[v].LocalQ))
+	showAcks("after B")
+	// A hears of the new term, then wins again with the votes of the two nodes that saw nothing of B's entries
+	d.blocked[[2]uint64{b.ID, a.ID}] = false
+	d.c.Do(Step{Act: "Tick", Node: b.ID})
+	d.pipeline(b.ID)
+	d.deliverSel(MsgSel{Type: "Heartbeat", From: b.ID, To: a.ID})
+	d.runNode(a.ID)
+	var cd []uint64
+	for _, id := range rest {
+		if id != b.ID {
+			cd = append(cd, id)
+		}
+	}
+	d.heal()
+	d.isolate(append([]uint64{a.ID}, cd...))
+	a2 := d.electIn(append([]uint64{a.ID}, cd...), tB, a.ID)
+	if a2 == nil || a2.ID != a.ID {
+		for _, n := range d.upNodes() {
+			if st, perr := safeState(n.RN); perr == "" {
+				dbg("   A not re-elected: node", n.ID, st.State, "term", st.Term, "lead", st.Lead, "commit", st.Commit, "last", st.LastIndex, "lastTerm", st.LastTerm, "a", a.ID, "b", b.ID, "v", v)
+			}
+		}
+		d.unfreeze()
+		d.heal()
+		d.settle(120)
+		return
+	}
+	d.with(p, 40) // A commits its old entries with the two
+	// A reaches V again and finds out where their logs diverge; the append that brings A's old entries
+	// back is held until it is on the wire, then V's storage stalls and it is delivered: V's third
+	// write stays queued
+	var ack1 *pb.Message
+	if q := d.c.Nodes[v].LocalQ; len(q) > 0 {
+		ack1 = q[0]
+	}
+	bringsBack := func(m *pb.Message) bool {
+		if ack1 == nil || m.GetType() != pb.MsgApp || m.GetFrom() != a.ID || m.GetTo() != v {
+			return false
+		}
+		for _, e := range m.GetEntries() {
+			if e.GetIndex() == ack1.GetIndex() && e.GetTerm() == ack1.GetLogTerm() {
+				return true
+			}
+		}
+		return false
+	}
+	onWire := func() bool {
+		for _, nm := range d.c.Net {
+			if bringsBack(nm.M) {
+				return true
+			}
+		}
+		return false
+	}
+	d.holdIf = bringsBack
+	d.heal()
+	d.isolate([]uint64{b.ID})
+	p.Tick = 0
+	for k := 0; k < 30 && !onWire(); k++ {
+		d.c.Do(Step{Act: "Tick", Node: a.ID})
+		d.with(p, 12)
+	}
+	dbg("ack-race: the append bringing the old entries back is on the wire:", onWire())
+	d.frozenAppend[v] = true
+	d.holdIf = nil
+	for k := 0; k < 4 && onWire(); k++ {
+		for _, nm := range d.c.Net {
+			if bringsBack(nm.M) {
+				d.c.Do(Step{Act: "Deliver", Mid: nm.Mid})
+				break
+			}
+		}
+	}
+	d.runNode(v)
+	dbg("ack-race: third write queued", len(d.c.Nodes[v].AppendQ), "pending acks", len(d.c.Nodes[v].LocalQ))
+	if os.Getenv("VERIF_DEBUG_SC") != "" {
+		n := d.c.Nodes[v]
+		if st, perr := safeState(n.RN); perr == "" {
+			dbg("   V term", st.Term, "commit", st.Commit, "applied", st.Applied, "last", st.LastIndex, "unstable", fmt.Sprint(jNode(n.RN).UEnts), "uoff", jNode(n.RN).UOff)
+			for _, m := range n.LocalQ {
+				dbg("   ack: term", m.GetTerm(), "index", m.GetIndex(), "logterm", m.GetLogTerm(), "snap", m.GetSnapshot() != nil)
+			}
+			dbg("   disk", fmt.Sprint(jDisk(n.St).Ents))
+		}
+	}
+	// the delayed acknowledgements arrive now
+	d.frozenLocal[v] = false
+	for n := d.c.up(v); n != nil && len(n.LocalQ) > 0; {
+		if !d.c.Do(Step{Act: "LocalResp", Node: v}) {
+			break
+		}
+	}
+	d.with(p, 40)
+	d.unfreeze()
+	d.with(p, 40)
+	d.heal()
 	d.settle(120)
 }
